@@ -329,6 +329,48 @@ theorem query_not_lost (cfg : Cfg) (s : State) (op : Op) (q : Query) (hq : q ∈
     simp only [step]
     split <;> exact Or.inl hq
 
+/-! ### concurrent calls: the linearisability reading -/
+
+/-- **Every linearisation of concurrently issued calls is safe.** `MemDB` serialises its public
+methods by `db.mu`, held from the first to the last access of the state, so what the store does
+with a batch of calls issued at the same time by different goroutines is what it does with SOME
+sequential order `lin` of them — whichever goroutine wins the lock first. All theorems of this
+file are invariants over every operation sequence (or hold for every state and step), hence for
+every such order; this corollary spells that out for the history-level statements: after any
+history `pre`, any order `lin` of the concurrent `batch`, and any continuation `post`, answers are
+unique per key (under the hypotheses of `answers_unique_partial`, which only concern the DATA of
+the calls, not their order), every answer was supplied by a `Store` of the history for that key,
+and no key holds two values. The step-level theorems (`conflicting_store_rejected`,
+`stored_never_replaced_partial`, `expired_refused`, `expired_data_refused_partial`, `await_prompt`,
+`await_prompt_registration`, `query_not_lost`, `answer_is_stored_value`) quantify over all states
+and therefore apply to each step of each linearisation as they are.
+That the real methods ARE atomic (the lock is held throughout) is not proved here: it is tied by the
+racing operations of the `dutydb` correspondence stream, which accept a concurrent execution on the
+real `MemDB` only if some order of the atomic model operations reproduces every call's result, every
+answer and the final state. -/
+theorem concurrent_batch_safe (cfg : Cfg) (pre batch lin post : List Op) (hlin : lin.Perm batch)
+    (hslot : cfg.checkSlot = true ∨ ∀ op ∈ pre ++ batch ++ post, op.slotOK = true) :
+    (∀ k v v', (k.kind ≠ .agg ∨ cfg.keepFirstAgg = true) →
+      (k, v) ∈ (run cfg {} (pre ++ lin ++ post)).answers →
+      (k, v') ∈ (run cfg {} (pre ++ lin ++ post)).answers → v = v') ∧
+    (∀ a ∈ (run cfg {} (pre ++ lin ++ post)).answers,
+      ∃ duty ex set, Op.store duty ex set ∈ pre ++ batch ++ post ∧
+        ∃ dat ∈ set, ∃ w ∈ (plan cfg duty dat).1, a = (w.key, w.val)) ∧
+    (run cfg {} (pre ++ lin ++ post)).kv.Pairwise (fun a b => a.1 ≠ b.1) := by
+  have hmem : ∀ op, op ∈ pre ++ lin ++ post ↔ op ∈ pre ++ batch ++ post := by
+    intro op
+    simp only [List.mem_append]
+    rw [hlin.mem_iff]
+  refine ⟨?_, ?_, one_value_per_key cfg _⟩
+  · intro k v v' hk h1 h2
+    refine answers_unique_partial cfg (pre ++ lin ++ post) ?_ k v v' hk h1 h2
+    rcases hslot with h | h
+    · exact Or.inl h
+    · exact Or.inr (fun op hop => h op ((hmem op).mp hop))
+  · intro a ha
+    obtain ⟨duty, ex, set, hop, rest⟩ := await_sound cfg (pre ++ lin ++ post) a ha
+    exact ⟨duty, ex, set, (hmem _).mp hop, rest⟩
+
 /-! ### witnesses and non-vacuity (concrete runs; tests of the statements, not proofs) -/
 
 /-- [D-4] an aggregate with the same data root (same key) but other aggregation bits / signature. -/
@@ -395,6 +437,17 @@ example :
     lookup (.con 7 0 1) (run Cfg.asIs {} (nvops.take 8)).kv = some (.con 1) ∧
     (step Cfg.asIs (run Cfg.asIs {} (nvops.take 8)) (nvops.getD 8 (.cancel 0))).2 =
       ⟨.qid 4, [(3, .con 7 0 1, .con 1), (4, .con 7 1 1, .con 1)]⟩ := by decide
+
+-- `concurrent_batch_safe` is not vacuous: the two orders of a racing conflicting pair of Stores (with a
+-- blocked query) are different executions — each answers the query with the winner's data — and both are safe
+example :
+    let a : Op := .store ⟨7, .sync⟩ false [.con [⟨7, 0, 1, 1⟩]]
+    let b : Op := .store ⟨7, .sync⟩ false [.con [⟨7, 0, 1, 2⟩]]
+    (run Cfg.asIs {} ([.await (.con 7 0 1)] ++ [a, b] ++ [])).answers = [(.con 7 0 1, .con 1)] ∧
+    (run Cfg.asIs {} ([.await (.con 7 0 1)] ++ [b, a] ++ [])).answers = [(.con 7 0 1, .con 2)] ∧
+    [b, a].Perm [a, b] := by
+  refine ⟨by decide, by decide, ?_⟩
+  exact List.Perm.swap _ _ _
 
 -- the hypotheses of the `_partial` theorems are satisfiable by runs that do answer queries
 example : (∀ op ∈ nvops, op.slotOK = true) ∧ (run Cfg.asIs {} nvops).answers.length = 4 := by decide
